@@ -380,6 +380,11 @@ class Interp:
             if a[0] == "named" and b[0] == "named" and op in ("Eq", "Ne"):
                 return ("int", int((a == b) == (op == "Eq")))
             return TOP
+        # remember the value range of int-typed atoms the first time they are compared
+        if ty in TYPE_RANGE:
+            for x in (a, b):
+                if x[0] == "term" and x[1] not in st.facts:
+                    st.facts[x[1]] = ("iv", full_range(ty))
         pos, atom = self.canon_cmp(op, a, b)
         t = atom if pos else ("not", atom)
         leaf = ("term", t)
@@ -811,13 +816,13 @@ class Interp:
                     return self.goto(st, fr, bb)
             return self.goto(st, fr, t["otherwise"])
         if d[0] == "term" and ty == "bool":
-            v = self.decide(st, d[1], ty)
+            v = self.decide(st, d[1])
             if v is not None:
                 return self.exec_switch_known(st, fr, t, int(v))
             out = []
             for val in (0, 1):
                 ns = st.clone()
-                if self.assume(ns, d[1], bool(val), ty):
+                if self.assume(ns, d[1], bool(val)):
                     nfr = ns.frames[-1]
                     r = self.exec_switch_known(ns, nfr, t, val)
                     out.extend(r if r is not None else [ns])
@@ -869,7 +874,7 @@ class Interp:
                 return self.goto(st, fr, t["target"])
             return [Outcome("panic", st, info=site)]
         if c[0] == "term":
-            v = self.decide(st, c[1], "bool")
+            v = self.decide(st, c[1])
             if v is not None:
                 if int(v) == exp:
                     return self.goto(st, fr, t["target"])
@@ -877,12 +882,12 @@ class Interp:
         if self.assume_unknown_asserts:
             st.assumed.append((fr.body.id, fr.bb, t["msg"]["kind"]))
             if c[0] == "term":
-                self.assume(st, c[1], bool(exp), "bool")
+                self.assume(st, c[1], bool(exp))
             return self.goto(st, fr, t["target"])
         ns = st.clone()
         out = [Outcome("panic", ns, info=site)]
         if c[0] == "term":
-            self.assume(st, c[1], bool(exp), "bool")
+            self.assume(st, c[1], bool(exp))
         r = self.goto(st, fr, t["target"])
         out.extend(r if r is not None else [st])
         return out
@@ -1067,13 +1072,13 @@ class Call:
 
     def fork_bool(self, term):
         """returns [(state, bool)] for both feasible values of boolean term"""
-        v = self.interp.decide(self.st, term, "bool")
+        v = self.interp.decide(self.st, term)
         if v is not None:
             return [(self.st, v)]
         out = []
         for val in (True, False):
             ns = self.st.clone()
-            if self.interp.assume(ns, term, val, "bool"):
+            if self.interp.assume(ns, term, val):
                 out.append((ns, val))
         return out
 
